@@ -562,6 +562,11 @@ func (m *Machine) intercept(fn *ssa.Function, args []Val, caller *frame, site ss
 			return nil
 		}
 	}
+	if strings.HasPrefix(name, "sync/atomic.") {
+		if h := m.atomicIntercept(fn.Name(), args); h != nil {
+			return h
+		}
+	}
 	if strings.HasPrefix(name, "unicode.") {
 		if h := m.unicodeIntercept(name, args); h != nil {
 			return h
@@ -1644,4 +1649,56 @@ func (m *Machine) stringsBuilderOp(op string, args []Val) Val {
 	}
 	m.unmodelled("strings.Builder.%s", op)
 	return nil
+}
+
+// atomicIntercept: the sync/atomic functions as plain memory operations of the
+// single logical thread (a store is a write to the addressed object, so an
+// atomic counter in shared memory is seen by the write-set analysis).
+func (m *Machine) atomicIntercept(name string, args []Val) handler {
+	op := ""
+	for _, p := range []string{"CompareAndSwap", "Add", "Load", "Store", "Swap", "And", "Or"} {
+		if strings.HasPrefix(name, p) {
+			op = p
+			break
+		}
+	}
+	if op == "" || len(args) == 0 {
+		return nil
+	}
+	if _, ok := args[0].(Ptr); !ok {
+		return nil
+	}
+	return func() Val {
+		switch op {
+		case "Load":
+			return m.load(args[0])
+		case "Store":
+			m.store(args[0], args[1], "atomic store")
+			return nil
+		case "Add":
+			nv := BinBV("bvadd", m.load(args[0]).(*Term), args[1].(*Term))
+			m.store(args[0], nv, "atomic add")
+			return nv
+		case "And":
+			old := m.load(args[0]).(*Term)
+			m.store(args[0], BinBV("bvand", old, args[1].(*Term)), "atomic and")
+			return old
+		case "Or":
+			old := m.load(args[0]).(*Term)
+			m.store(args[0], BinBV("bvor", old, args[1].(*Term)), "atomic or")
+			return old
+		case "Swap":
+			old := m.load(args[0])
+			m.store(args[0], args[1], "atomic swap")
+			return old
+		case "CompareAndSwap":
+			old := m.load(args[0])
+			if m.branch(valEq(old, args[1]), "atomic compare-and-swap") {
+				m.store(args[0], args[2], "atomic compare-and-swap")
+				return tTrue
+			}
+			return tFalse
+		}
+		return nil
+	}
 }
